@@ -4,7 +4,7 @@ From Coq Require Import List NArith Bool Arith Lia.
 From Verif Require Import lib.Quote model.ExSyntax model.ExLexer model.ExParser model.ExPrinter gen.GrammarE3
   model.ExScanner model.ExRefactor model.ExTemplate
   proofs.QuoteProofs proofs.ExPrintProofs proofs.ExLexerProofs proofs.ExRoundtrip proofs.ExTokok
-  proofs.ExScannerProofs proofs.ExRefactorProofs proofs.ExRender proofs.ExParserTotal.
+  proofs.ExScannerProofs proofs.ExRefactorProofs proofs.ExRender proofs.ExParserTotal proofs.ExGlue proofs.ExTreeWf.
 Import ListNotations.
 Open Scope N_scope.
 
@@ -150,3 +150,53 @@ Theorem parse_total_stmt : forall ts,
 Proof.
   intros ts. pose proof (parse_tokens_no_fuel ts) as H. destruct (parse_tokens ts) as [t| | |]; eauto. congruence.
 Qed.
+
+(* the renamed tree, printed: its tokens are parsed back to the normalised renamed tree; and if its printed text is
+   glue-free (e.g. the new name is a NAME lexeme and no keyword), lexing and parsing the text refactor.Template writes
+   for the expression yields it too *)
+Theorem rename_reparse_stmt : forall (lower : N -> N) (printable : N -> bool) (is_from : ExSyntax.text -> bool) (to : ExSyntax.text) inp ts t,
+  printable 10 = false -> valid_codepoints inp ->
+  lex inp = LOk ts -> parse_tokens ts = POk t ->
+  parse_tokens (ptoks lower printable (rename is_from to t)) = POk (norm lower (rename is_from to t))
+  /\ (glue_free lower printable (rename is_from to t) = true ->
+      exists ts', lex (print lower printable (rename is_from to t)) = LOk ts'
+                  /\ parse_tokens ts' = POk (norm lower (rename is_from to t))).
+Proof.
+  intros lower printable is_from to inp ts t Hnl Hv HL HP.
+  assert (Hok : Forall tokok ts) by (eapply lex_tokok; eassumption).
+  destruct (reparse_renamed lower printable Hnl is_from to ts t Hok HP) as [_ H2].
+  split; [exact H2|]. intros HG. exists (ptoks lower printable (rename is_from to t)).
+  split; [apply lex_print; exact HG|exact H2].
+Qed.
+
+(* the round trip on text with the side condition on the SOURCE tree *)
+Theorem roundtrip_source_stmt : forall (lower : N -> N) (printable : N -> bool) inp ts t,
+  printable 10 = false -> (forall c, lower (lower c) = lower c) -> valid_codepoints inp ->
+  lex inp = LOk ts -> parse_tokens ts = POk t ->
+  names_ok lower t = true -> texts_ok t = true ->
+  exists ts', lex (print lower printable t) = LOk ts'
+              /\ parse_tokens ts' = POk (norm lower t)
+              /\ print lower printable (norm lower t) = print lower printable t.
+Proof.
+  intros lower printable inp ts t Hnl Hid Hv HL HP Hn Ht.
+  apply (roundtrip_stmt lower printable inp ts t Hnl Hid Hv HL HP).
+  apply glue_free_char; [exact Hnl|exact (parsed_shape inp ts t Hv HL HP)|exact Hn|exact Ht].
+Qed.
+
+(* the two conditions hold on ordinary expressions (non-ASCII name, anonymous function, numeric lookups, every
+   literal form) and fail exactly on the two refutation witnesses *)
+(* the source: foreach applied to a name with a non-ASCII capital and two numeric lookups, and an anonymous function
+   of X and y whose body concatenates upper(X), a text literal containing a quote, and the number 1.50, compared with true *)
+Definition s_inp : ExSyntax.text :=
+  [102; 111; 114; 101; 97; 99; 104; 40; 201; 97; 46; 49; 32; 46; 50; 44; 32; 40; 88; 44; 32; 121; 41; 32; 61; 62; 32;
+   117; 112; 112; 101; 114; 40; 88; 41; 32; 38; 32; 34; 113; 92; 34; 34; 32; 38; 32; 49; 46; 53; 48; 32; 61; 32; 116; 114; 117; 101; 41].
+Definition s_lower (c : N) : N := if (65 <=? c) && (c <=? 90) then c + 32 else if c =? 201 then 233 else if c =? 0x13A0 then 0xAB70 else c.
+Definition s_ts : list token := Eval vm_compute in toks_or_nil (lex s_inp).
+Definition s_t : expr := Eval vm_compute in tree_or_null (parse_tokens s_ts).
+
+Example source_conditions_witness :
+  lex s_inp = LOk s_ts /\ parse_tokens s_ts = POk s_t /\ s_t <> ENull
+  /\ names_ok s_lower s_t = true /\ texts_ok s_t = true
+  /\ names_ok s_lower r_t1 = false      (* the Cherokee name *)
+  /\ texts_ok r_t2 = false.             (* the value ending in a backslash *)
+Proof. repeat split; try (vm_compute; reflexivity). vm_compute. discriminate. Qed.
